@@ -119,10 +119,23 @@ fn build(ctx: &Ctx, suite: &Suite, family: usize, sel: usize, key: &[u8], ivseed
                 let _ = o.try_apply(ApplyKind::Inout, &d, &mut out);
                 total += n;
             }
-            let c = (suite.keyed)(key);
-            let ks = KsModel::new(c.as_ref(), f.kind(), &iv);
+            // what a leaking Debug would show: the unused part of the current keystream block, read
+            // from an identically driven twin (no reference model involved)
             let off = total % bs;
-            let buffered = if off == 0 { vec![] } else { ks.ks_block((total / bs) as u128)[off..].to_vec() };
+            let buffered = if off == 0 {
+                vec![]
+            } else {
+                let mut twin = f.make(Ctor::New, key, &iv).expect("harness: ctor");
+                for (i, n) in hist.iter().enumerate() {
+                    let d = tape::bytes(3, ivseed.1 ^ i as u32, *n);
+                    let mut out = vec![0u8; d.len()];
+                    let _ = twin.try_apply(ApplyKind::Inout, &d, &mut out);
+                }
+                let z = vec![0u8; bs - off];
+                let mut pending = vec![0u8; bs - off];
+                let _ = twin.try_apply(ApplyKind::Inout, &z, &mut pending);
+                pending
+            };
             (f.type_name(), f.alg_name(), Built { debug: o.debug(), core_debug: o.core_debug(), buffered })
         }
         _ => {
